@@ -68,6 +68,12 @@ func canonAnswer(canon, op, ans string, env *gtext.Env) string {
 			return ans + " !not-a-complete-encoding"
 		}
 		return "ok " + refcodec.Canon(v).Text()
+	case canon == "zapjson":
+		raw, err := unhex(body)
+		if err != nil {
+			return ans + " !bad-hex"
+		}
+		return "ok " + hx([]byte(canonJSON(raw)))
 	case strings.HasPrefix(canon, "vis:"):
 		return visCanon(canon[4:], op, body, env)
 	case canon == "vistokens":
